@@ -11,6 +11,11 @@ w("//@ pred tokWf(tokens []*Token) := len(tokens) >= 1 && (forall k :: { tokens[
 w("//@    && (forall k :: { tokens[k] } 0 <= k && k < len(tokens) ==> ((tokens[k].TokenType == EOF) == (k == len(tokens) - 1)))")
 w("//@ pred ign(t Int) := t == WS || t == COMMENT")
 w("//@ pred okIdx(tokens []*Token, i Int, r Int) := i < r && r < len(tokens)")
+w("// firstSig(ts, i): the first index >= i whose token is neither whitespace nor comment (it exists")
+w("// because the final EOF token is significant); defined by description, consumeIgnoreableTokens is proved to compute it.")
+w("//@ specfunc firstSig([]*Token, Int) Int")
+w("//@ axiom firstSig_def: forall ts []*Token, i Int :: { firstSig(ts, i) } tokWf(ts) && 0 <= i && i < len(ts) ==>")
+w("//@    i <= firstSig(ts, i) && firstSig(ts, i) < len(ts) && !ign(ts[firstSig(ts, i)].TokenType) && (forall k :: { ts[k] } i <= k && k < firstSig(ts, i) ==> ign(ts[k].TokenType))")
 w("")
 w("//@ func consumeIgnoreableTokens [C08 C15]")
 w("//@   noframe")
@@ -18,6 +23,7 @@ w("//@   requires " + P.format(i="index"))
 w("//@   ensures range: index <= result && result < len(tokens)")
 w("//@   ensures significant: !ign(tokens[result].TokenType)")
 w("//@   ensures skipped: forall k :: { tokens[k] } index <= k && k < result ==> ign(tokens[k].TokenType)")
+w("//@   ensures first: result == firstSig(tokens, index)")
 w("//@   loop 1 invariant index <= current_index && current_index < len(tokens)")
 w("//@   loop 1 invariant forall k :: { tokens[k] } index <= k && k < current_index ==> ign(tokens[k].TokenType)")
 w("//@   loop 1 decreases len(tokens) - current_index")
@@ -66,9 +72,19 @@ loops = {
  "parse_sub_expression": ["0 <= current_index && current_index < len(tokens) && current_token == tokens[current_index] && token_index < current_index"],
  "parse_subroutine": ["0 <= current_index && current_index < len(tokens) && current_token == tokens[current_index] && token_index < current_index"],
 }
+c15inv = {
+ "parse_find": [(1, "!ign(current_token.TokenType)")],
+ "parse_replace": [(1, "!ign(current_token.TokenType)"), (2, "!ign(current_token.TokenType)")],
+ "parse_set_pattern": [(1, "!ign(tokens[current_index].TokenType)")],
+ "parse_in": [(1, "!ign(current_token.TokenType)")],
+ "parse_sub_expression": [(1, "!ign(current_token.TokenType)")],
+ "parse_subroutine": [(1, "!ign(current_token.TokenType)")],
+}
 for name, ip, kind, nonEof, extra in funcs:
-    w("//@ func %s [C08]" % name)
+    w("//@ func %s [C08 C15]" % name)
     w("//@   noframe")
+    w("//@   sigreads [C15]")
+    w("//@   requires sig: !ign(tokens[%s].TokenType) [C15]" % ip)
     req = P.format(i=ip)
     if nonEof:
         req += " && tokens[%s].TokenType != EOF" % ip
@@ -86,20 +102,43 @@ for name, ip, kind, nonEof, extra in funcs:
     w("//@   ensures either: result.2 != nil || result.1 < len(tokens)")
     for k, inv in enumerate(loops.get(name, [])):
         w("//@   loop %d invariant %s" % (k+1, inv))
+    for n, inv in c15inv.get(name, []):
+        w("//@   loop %d invariant sig: %s [C15]" % (n, inv))
     w("")
-w("//@ func parse_amount [C08 C04]")
+w("//@ func parse_amount [C08 C04 C15]")
 w("//@   noframe")
+w("//@   sigreads [C15]")
 w("//@   requires " + P.format(i="token_index"))
 w("//@   ensures index: result.5 == nil ==> token_index <= result.4 && result.4 < len(tokens) && okIdx(tokens, token_index, result.4)")
+w("// the amount clause, from the property statement C04: all | skip s | skip s take t | take n | top n | last n")
+w("//@   let a := firstSig(tokens, token_index)")
+w("//@   let ta := tokens[a].TokenType")
+w("//@   let b := firstSig(tokens, a + 1)")
+w("//@   let nb := tokens[b].TokenType == NUMBER && atoiok(tokens[b].Lexeme)")
+w("//@   let vb := atoi(tokens[b].Lexeme)")
+w("//@   let c := firstSig(tokens, b + 1)")
+w("//@   let d := firstSig(tokens, c + 1)")
+w("//@   let nd := tokens[d].TokenType == NUMBER && atoiok(tokens[d].Lexeme)")
+w("//@   let vd := atoi(tokens[d].Lexeme)")
+w("//@   ensures all: ta == ALL ==> result.5 == nil && result.0 && result.1 == 0 && result.2 == 0 && result.3 == 0 && result.4 == a + 1 [C04]")
+w("//@   ensures skip: ta == SKIP && nb && tokens[c].TokenType != TAKE ==> result.5 == nil && result.0 && result.1 == vb && result.2 == 0 && result.3 == 0 && result.4 == c [C04]")
+w("//@   ensures skiptake: ta == SKIP && nb && tokens[c].TokenType == TAKE && nd ==> result.5 == nil && !result.0 && result.1 == vb && result.2 == vd && result.3 == 0 && result.4 == d + 1 [C04]")
+w("//@   ensures take: (ta == TAKE || ta == TOP) && nb ==> result.5 == nil && !result.0 && result.1 == 0 && result.2 == vb && result.3 == 0 && result.4 == b + 1 [C04]")
+w("//@   ensures last: ta == LAST && nb ==> result.5 == nil && result.0 && result.1 == 0 && result.2 == 0 && result.3 == vb && result.4 == b + 1 [C04]")
+w("//@   ensures other: !(ta == ALL || ta == SKIP || ta == TAKE || ta == TOP || ta == LAST) ==> result.5 != nil [C04]")
 w("")
-w("//@ func parse_process_statements [C08]")
+w("//@ func parse_process_statements [C08 C15]")
 w("//@   noframe")
+w("//@   sigreads [C15]")
 w("//@   requires " + P.format(i="index"))
 w("//@   ensures index: result.2 == nil ==> index <= result.1 && result.1 < len(tokens)")
+w("//@   ensures sig: result.2 == nil ==> !ign(tokens[result.1].TokenType) [C15]")
 w("//@   loop 1 invariant index <= token_index && token_index < len(tokens)")
 w("")
-w("//@ func parse_process_statement [C08]")
+w("//@ func parse_process_statement [C08 C15]")
 w("//@   noframe")
+w("//@   sigreads [C15]")
+w("//@   requires sig: !ign(tokens[index].TokenType) [C15]")
 w("//@   requires " + P.format(i="index"))
 w("//@   ensures nohole: result.2 == nil && result.0 != nil ==> wfbox(result.0) && okIdx(tokens, index, result.1)")
 w("//@   ensures stop: result.2 == nil && result.0 == nil ==> result.1 == index && (tokens[index].TokenType == END || tokens[index].TokenType == ELSE)")
@@ -110,19 +149,24 @@ w("//@   requires " + P.format(i="index"))
 w("//@   ensures index: index <= result.1 && result.1 < len(tokens)")
 w("//@   ensures nonnil: forall k :: { result.0[k] } 0 <= k && k < len(result.0) ==> result.0[k] != nil")
 w("//@   ensures nonempty: len(result.0) > 0 ==> result.1 > index")
+w("//@   ensures filtered: forall k :: { result.0[k] } 0 <= k && k < len(result.0) ==> !ign(result.0[k].TokenType) [C15]")
 w("//@   loop 1 invariant index <= token_index && token_index < len(tokens) && tokWf(tokens) && fresh(exprTokens) && (len(exprTokens) > 0 ==> token_index > index)")
 w("//@   loop 1 invariant forall k :: { exprTokens[k] } 0 <= k && k < len(exprTokens) ==> exprTokens[k] != nil")
+w("//@   loop 1 invariant filtered: forall k :: { exprTokens[k] } 0 <= k && k < len(exprTokens) ==> !ign(exprTokens[k].TokenType) [C15]")
 w("//@   loop 1 decreases len(tokens) - token_index")
 w("")
-w("//@ func parse_expr_pratt [C08 C11]")
+w("//@ func parse_expr_pratt [C08 C11 C15]")
 w("//@   noframe")
+w("//@   sigreads [C15]")
+w("//@   requires sig: forall k :: { tokens[k] } 0 <= k && k < len(tokens) ==> !ign(tokens[k].TokenType) [C15]")
 w("//@   requires (forall k :: { tokens[k] } 0 <= k && k < len(tokens) ==> tokens[k] != nil) && len(tokens) >= 1 && 0 <= index && index <= len(tokens)")
 w("//@   ensures nohole: result.2 == nil ==> wfbox(result.0)")
 w("//@   ensures index: result.2 == nil ==> index < result.1 && result.1 <= len(tokens)")
 w("//@   loop 1 invariant index < token_index && token_index <= len(tokens) && wfbox(lhs)")
 w("")
-w("//@ func parse [C08]")
+w("//@ func parse [C08 C15]")
 w("//@   noframe")
+w("//@   sigreads [C15]")
 w("//@   requires tokWf(tokens)")
 w("//@   ensures nohole: result.1 == nil ==> forall k :: { result.0[k] } 0 <= k && k < len(result.0) ==> wfbox(result.0[k])")
 w("//@   loop 1 invariant 0 <= token_index && token_index < len(tokens)")
